@@ -305,7 +305,10 @@ def _worker(args):
         chosen = ["File", "ID3", "APEv2"] + ([own] if own else [])
     it = items if items is not None else structured(name, data)
     for idx, (lab, m) in enumerate(it):
-        if items is None and (idx < lo or idx >= hi or (idx - lo) % stride):
+        if items is None and (idx < lo or idx >= hi):
+            continue
+        # the stride thins only the generic sweeps (byte@ / head@ / trunc@); every structure-aware field input runs
+        if items is None and (idx - lo) % stride and lab.split("@", 1)[0] in ("byte", "head", "trunc"):
             continue
         for on in chosen:
             probs, calls, nread, dt = c04.contract(ops[on], m)
